@@ -6,19 +6,65 @@ use std::marker::PhantomData;
 use dukenest::nest::{Nest, NestType, Nests};
 use duke::tree::method::MethodNameAndDesc;
 
-/// the class universe: the first `N_PRESENT` are in the jar, the others are not. Two of the names have
-/// the shapes the statement mentions for names that are already processed: calamus-style `C_12` and
-/// the pre-nested `A__D` (whose prefix is another class of the universe)
-pub const CLS: [&str; 6] = ["p/A", "p/B", "p/C_12", "p/A__D", "p/E", "p/F"];
-pub const SIMPLE: [&str; 6] = ["A", "B", "C_12", "A__D", "E", "F"];
+/// A class universe: six class names, the first `N_PRESENT` are in the jar, the others are not. Every universe
+/// keeps the roles of the base one: index 2 has the calamus shape `C_12`, index 3 the pre-nested shape `A__D`
+/// (whose prefix is the simple name of class 0).
+///  * `base`: plain ASCII names in one package;
+///  * `multibyte`: 2-, 3- and 4-byte characters at the first / last position of simple names, in package names,
+///    next to `__` and behind the digit prefix of local inner names; one class two packages deep;
+///  * `odd-a`: a class that already has the name the table gives it (`p/A$B` as member `B` of `p/A`: the name stays,
+///    the attributes are still recorded), a `(` inside a name, a class in the default package whose name starts with `L`;
+///  * `odd-b`: two classes with the same simple name in different packages, classes in the default package (one in
+///    the jar, one missing), a package whose name starts with `L`, a name that ends in `$`.
+pub struct Uni {
+	pub id: &'static str,
+	pub cls: [&'static str; 6],
+	/// inner-class access flags of the nest of each class (all inside the InnerClasses flag mask)
+	pub flags: [u16; 6],
+	/// a method every jar class declares
+	pub m_present: (String, String),
+	/// a method none declares: the name of the present one, another descriptor
+	pub m_absent: (String, String),
+	/// a method none declares: the descriptor of the present one, another name
+	pub m_other_name: (String, String),
+}
+
 /// one letter per class, for names derived in the checker (target names, field names)
 pub const LETTER: [&str; 6] = ["A", "B", "C", "D", "E", "F"];
 pub const N_PRESENT: usize = 4;
-/// inner-class access flags of the nest of each class (all inside the InnerClasses flag mask)
-pub const FLAGS: [u16; 6] = [0x0009, 0x0008, 0x0002, 0x4019, 0x0000, 0x0608];
-/// a method every jar class declares, and one (same name, other descriptor) that none declares
-pub const M_PRESENT: (&str, &str) = ("m", "(Lp/B;[Lp/E;)Lp/C_12;");
-pub const M_ABSENT: (&str, &str) = ("m", "(Lp/B;)V");
+
+impl Uni {
+	fn new(id: &'static str, cls: [&'static str; 6], flags: [u16; 6]) -> Uni {
+		let desc = format!("(L{};[L{};)L{};", cls[1], cls[4], cls[2]);
+		Uni { id, cls, flags, m_present: ("m".into(), desc.clone()), m_absent: ("m".into(), format!("(L{};)V", cls[1])), m_other_name: ("mm".into(), desc) }
+	}
+	pub fn simple(&self, i: usize) -> &'static str {
+		let c: &'static str = self.cls[i];
+		c.rsplit_once('/').map_or(c, |(_, s)| s)
+	}
+	pub fn idx_of(&self, class: &str) -> usize {
+		self.cls.iter().position(|c| *c == class).unwrap_or_else(|| vcore::machinery_fail(&format!("class {class:?} is not in the universe {}", self.id)))
+	}
+	pub fn is_base(&self) -> bool {
+		self.id == "base"
+	}
+}
+
+pub fn universes() -> &'static [Uni] {
+	static U: std::sync::OnceLock<Vec<Uni>> = std::sync::OnceLock::new();
+	U.get_or_init(|| vec![
+		Uni::new("base", ["p/A", "p/B", "p/C_12", "p/A__D", "p/E", "p/F"], [0x0009, 0x0008, 0x0002, 0x4019, 0x0000, 0x0608]),
+		Uni::new("multibyte", ["\u{3c0}/\u{c4}", "\u{3c0}/B\u{20ac}", "\u{3c0}/C_12", "\u{3c0}/\u{c4}__\u{110}\u{1f600}", "\u{3c0}/\u{1f600}E", "\u{fc}/\u{e9}/F\u{e9}"], [0x000a, 0x041a, 0x1004, 0x2609, 0x0000, 0x0001]),
+		Uni::new("odd-a", ["p/A", "p/A$B", "p/C_12", "p/A__D", "p/(E", "LF"], [0x0009, 0x0008, 0x0002, 0x4019, 0x0000, 0x0608]),
+		Uni::new("odd-b", ["p/A", "r/A", "C_12", "Lp/A__D", "E", "p/F$"], [0x0009, 0x000a, 0x0004, 0x4019, 0x0000, 0x0608]),
+	])
+}
+pub fn base() -> &'static Uni {
+	&universes()[0]
+}
+pub fn universe(id: &str) -> &'static Uni {
+	universes().iter().find(|u| u.id == id).unwrap_or_else(|| vcore::machinery_fail(&format!("no universe {id:?}")))
+}
 
 #[derive(Clone, Copy, Debug, PartialEq, Eq, Hash, PartialOrd, Ord)]
 pub enum Ty {
@@ -70,6 +116,16 @@ pub enum NameK {
 	Tail,
 	/// digit prefix + that part (`1D`)
 	LocTail,
+	/// a number with a leading zero (`01` for `p/B`): numeric and positive
+	PosLead0,
+	/// a digit prefix of two digits + the simple name (`12B`)
+	Loc2Derived,
+	/// one name for every class (`Same`): two classes get the same inner name in different enclosing classes
+	Shared,
+	/// `1Same`
+	LocShared,
+	/// `7` for every class
+	SharedPos,
 }
 
 #[derive(Clone, Copy, Debug, PartialEq, Eq, Hash, PartialOrd, Ord)]
@@ -134,12 +190,41 @@ pub const KINDS_FULL: &[Kind] = &[
 	k(Ty::Anon, MethK::None, NameK::Zeros),
 	k(Ty::Inner, MethK::None, NameK::Tail),
 	k(Ty::Local, MethK::Present, NameK::LocTail),
+	// --- second extension: a number with a leading zero, a local prefix of two digits, one inner name for all classes
+	k(Ty::Anon, MethK::None, NameK::PosLead0),
+	k(Ty::Local, MethK::Present, NameK::Loc2Derived),
+	k(Ty::Inner, MethK::None, NameK::Shared),
+	k(Ty::Local, MethK::Present, NameK::LocShared),
+	k(Ty::Anon, MethK::Present, NameK::SharedPos),
+];
+/// menu of the shared-inner-name sweep: the three kinds whose inner name does not depend on the class, and one
+/// derived kind to mix them with
+pub const KINDS_SHARED: &[Kind] = &[
+	k(Ty::Inner, MethK::None, NameK::Shared),
+	k(Ty::Local, MethK::Present, NameK::LocShared),
+	k(Ty::Anon, MethK::Present, NameK::SharedPos),
+	k(Ty::Inner, MethK::None, NameK::Derived),
+];
+/// menu of the two-entry tables of the further name universes: derived / tail / custom names of every type, a rejected kind
+pub const KINDS_NAMES: &[Kind] = &[
+	k(Ty::Inner, MethK::None, NameK::Derived),
+	k(Ty::Inner, MethK::None, NameK::Tail),
+	k(Ty::Local, MethK::Present, NameK::LocDerived),
+	k(Ty::Local, MethK::Present, NameK::LocTail),
+	k(Ty::Anon, MethK::None, NameK::Pos),
+	k(Ty::Inner, MethK::Present, NameK::Custom),
+];
+/// kinds of the chain sweep, by position in the chain (all apply when the enclosing class is in the jar)
+pub const KINDS_CHAIN: &[Kind] = &[
+	k(Ty::Inner, MethK::None, NameK::Derived),
+	k(Ty::Local, MethK::Present, NameK::LocDerived),
+	k(Ty::Anon, MethK::None, NameK::Pos),
+	k(Ty::Inner, MethK::Absent, NameK::Custom),
+	k(Ty::Anon, MethK::Present, NameK::Pos2),
 ];
 pub const CORE: usize = 6;
 pub const MEDIUM: usize = 12;
 pub const OLD: usize = 22;
-/// a method name with the descriptor of `M_PRESENT` that no class declares
-pub const M_OTHER_NAME: (&str, &str) = ("mm", "(Lp/B;[Lp/E;)Lp/C_12;");
 /// the method only class `i` declares
 pub fn only_method(i: usize) -> (String, String) {
 	(format!("only{}", LETTER[i]), "()V".to_owned())
@@ -163,8 +248,15 @@ pub struct Entry {
 	pub flags: u16,
 }
 
-pub fn inner_name(class: usize, name: NameK) -> String {
-	let s = SIMPLE[class];
+/// the part of a simple name behind its last `__` or `$` (the whole name where that part would be empty)
+fn tail_of(s: &str) -> &str {
+	let a = s.rsplit_once("__").map_or(s, |(_, t)| t);
+	let b = a.rsplit_once('$').map_or(a, |(_, t)| t);
+	if b.is_empty() { s } else { b }
+}
+
+pub fn inner_name(u: &Uni, class: usize, name: NameK) -> String {
+	let s = u.simple(class);
 	match name {
 		NameK::Derived => s.to_owned(),
 		NameK::Custom => format!("X{}", s.to_lowercase()),
@@ -175,31 +267,36 @@ pub fn inner_name(class: usize, name: NameK) -> String {
 		NameK::Pos2 => ["14", "11", "12", "13", "15", "16"][class].to_owned(),
 		NameK::PosMax => "2147483647".to_owned(),
 		NameK::Zeros => "00".to_owned(),
-		NameK::Tail => s.rsplit_once("__").map_or(s, |(_, t)| t).to_owned(),
-		NameK::LocTail => format!("1{}", s.rsplit_once("__").map_or(s, |(_, t)| t)),
+		NameK::Tail => tail_of(s).to_owned(),
+		NameK::LocTail => format!("1{}", tail_of(s)),
+		NameK::PosLead0 => format!("0{}", ["4", "1", "2", "3", "5", "6"][class]),
+		NameK::Loc2Derived => format!("12{s}"),
+		NameK::Shared => "Same".to_owned(),
+		NameK::LocShared => "1Same".to_owned(),
+		NameK::SharedPos => "7".to_owned(),
 	}
 }
 
-pub fn entry(class: usize, encl: usize, kind: Kind) -> Entry {
+pub fn entry(u: &Uni, class: usize, encl: usize, kind: Kind) -> Entry {
 	Entry {
 		ty: kind.ty,
-		class: CLS[class].to_owned(),
-		encl: CLS[encl].to_owned(),
+		class: u.cls[class].to_owned(),
+		encl: u.cls[encl].to_owned(),
 		method: match kind.meth {
 			MethK::None => None,
-			MethK::Present => Some((M_PRESENT.0.to_owned(), M_PRESENT.1.to_owned())),
-			MethK::Absent => Some((M_ABSENT.0.to_owned(), M_ABSENT.1.to_owned())),
-			MethK::OtherName => Some((M_OTHER_NAME.0.to_owned(), M_OTHER_NAME.1.to_owned())),
+			MethK::Present => Some(u.m_present.clone()),
+			MethK::Absent => Some(u.m_absent.clone()),
+			MethK::OtherName => Some(u.m_other_name.clone()),
 			MethK::InNestedOnly => Some(only_method(class)),
 		},
-		inner: inner_name(class, kind.name),
-		flags: FLAGS[class],
+		inner: inner_name(u, class, kind.name),
+		flags: u.flags[class],
 	}
 }
 
 /// the classes other than `class`, in universe order: the candidates for its enclosing class
 pub fn encl_choices(class: usize) -> Vec<usize> {
-	(0..CLS.len()).filter(|c| *c != class).collect()
+	(0..6).filter(|c| *c != class).collect()
 }
 
 /// does following the enclosing classes from some entry come back to a class already seen?
@@ -222,6 +319,7 @@ pub fn has_cycle(t: &[Entry]) -> bool {
 /// A family of tables: every choice of `size` distinct nested classes (ascending) × for each the
 /// enclosing class (5) × the entry kind (menu). Addressed by index.
 pub struct TableSpace {
+	pub uni: &'static Uni,
 	pub size: usize,
 	pub menu: &'static [Kind],
 	/// class subsets (ascending class indices)
@@ -231,8 +329,11 @@ pub struct TableSpace {
 
 impl TableSpace {
 	pub fn new(size: usize, menu: &'static [Kind]) -> TableSpace {
-		let subsets = vcore::enumerate::subsets_by_size(CLS.len()).into_iter().filter(|m| m.count_ones() as usize == size).map(|m| (0..CLS.len()).filter(|i| m & (1 << i) != 0).collect()).collect();
-		TableSpace { size, menu, subsets, per_entry: (CLS.len() - 1) * menu.len() }
+		TableSpace::of(base(), size, menu)
+	}
+	pub fn of(uni: &'static Uni, size: usize, menu: &'static [Kind]) -> TableSpace {
+		let subsets = vcore::enumerate::subsets_by_size(6).into_iter().filter(|m| m.count_ones() as usize == size).map(|m| (0..6).filter(|i| m & (1 << i) != 0).collect()).collect();
+		TableSpace { uni, size, menu, subsets, per_entry: 5 * menu.len() }
 	}
 	pub fn per_subset(&self) -> u64 {
 		(self.per_entry as u64).pow(self.size as u32)
@@ -249,7 +350,7 @@ impl TableSpace {
 			let d = (rest % self.per_entry as u64) as usize;
 			rest /= self.per_entry as u64;
 			let encl = encl_choices(class)[d / self.menu.len()];
-			out.push(entry(class, encl, self.menu[d % self.menu.len()]));
+			out.push(entry(self.uni, class, encl, self.menu[d % self.menu.len()]));
 		}
 		out.reverse();
 		out
@@ -276,17 +377,42 @@ pub fn text_expressible(t: &[Entry]) -> bool {
 }
 
 pub fn render_text(t: &[Entry]) -> String {
+	render_text_as(t, 0, "\n", true)
+}
+
+/// The text form with the spelling choices it leaves open: the access flags of line `i` are written in radix
+/// `(i + radix_shift) % 4` (decimal, `0x` lower case, `0b`, `0x` upper-case digits), lines end in `eol`, and the last
+/// line has a line terminator or not.
+pub fn render_text_as(t: &[Entry], radix_shift: usize, eol: &str, final_eol: bool) -> String {
 	let mut s = String::new();
 	for (i, e) in t.iter().enumerate() {
 		let (mn, md) = e.method.clone().unwrap_or_default();
-		let access = match i % 3 {
+		let access = match (i + radix_shift) % 4 {
 			0 => format!("{}", e.flags),
 			1 => format!("0x{:x}", e.flags),
-			_ => format!("0b{:b}", e.flags),
+			2 => format!("0b{:b}", e.flags),
+			_ => format!("0x{:04X}", e.flags),
 		};
-		s.push_str(&format!("{}\t{}\t{}\t{}\t{}\t{}\n", e.class, e.encl, mn, md, e.inner, access));
+		s.push_str(&format!("{}\t{}\t{}\t{}\t{}\t{}", e.class, e.encl, mn, md, e.inner, access));
+		if final_eol || i + 1 < t.len() {
+			s.push_str(eol);
+		}
 	}
 	s
+}
+
+/// every chain `c0 in c1 in … in cn` of `n` entries over the universe (the root `cn` is not nested), the kinds taken
+/// from `KINDS_CHAIN` by position (rotated from chain to chain), in every order of the `n` lines
+pub fn chain_tables(u: &Uni, n: usize) -> Vec<Vec<Entry>> {
+	let perms = vcore::enumerate::permutations(n);
+	let mut out = Vec::new();
+	for (ci, seq) in vcore::enumerate::injective_sequences(6, n + 1).into_iter().filter(|s| s.len() == n + 1).enumerate() {
+		let lines: Vec<Entry> = (0..n).map(|p| entry(u, seq[p], seq[p + 1], KINDS_CHAIN[(p + ci) % KINDS_CHAIN.len()])).collect();
+		for perm in &perms {
+			out.push(perm.iter().map(|i| lines[*i].clone()).collect());
+		}
+	}
+	out
 }
 
 // ---------------------------------------------------------------------------------------------
